@@ -205,7 +205,32 @@ def check_values(values, accepted=True, origin=None):
             if not same(v, back):
                 V("silently-altered", f"{path}: {brief(v)} came back as {brief(back)} (serialized {s[:120]!r})",
                   kind=kind_of_value(v))
+                continue
+            # a decoded value belongs to its caller: changing it must not change what the next
+            # deserialization of the same text returns
+            if _mutate(back):
+                try:
+                    again = deserialize(None, s, "op2", "arn") if path == "module" else ext.deserialize(s)
+                except Exception as e:  # noqa: BLE001
+                    V("cannot-deserialize-own-output", f"{path}: second decode {type(e).__name__}: {e}", kind="second-decode")
+                    continue
+                if not same(v, again):
+                    V("decoded-values-share-state", f"{path}: after mutating one decoded copy of {brief(v)}, the next "
+                      f"deserialization of the same text returned {brief(again)}", kind=type(v).__name__)
     return n, rejected, shapes, list(viol.values()), samples
+
+
+def _mutate(x):
+    """Change a decoded container in place (returns False for immutable values)."""
+    if isinstance(x, list):
+        x.append("<mutated>")
+        for e in x[:-1]:
+            _mutate(e)
+        return True
+    if isinstance(x, dict):
+        x["<mutated>"] = 1
+        return True
+    return False
 
 
 def kind_of_value(v):
